@@ -29,6 +29,7 @@
                                   the verifier.
 -/
 import AnnVerif.Model.Sync
+import AnnVerif.Model.Handoff
 import AnnVerif.Lemmas.BlockValid
 import AnnVerif.Props.C02
 namespace AnnVerif.C13
@@ -394,6 +395,69 @@ theorem asFound_missing_commit_reaches_verifier :
     (serve Sync.asFound wSt.pool "p1" wNoCommit).2 = true ∧
     (complete Sync.asFound (fun _ => none) (fun _ => []) wSig wSt wBad wNoCommit).2 = .panic ∧
     (serve Sync.repaired wSt.pool "p1" wNoCommit).2 = false := by decide
+
+/-! ### H: the hand-over of a block response (Model/Handoff.lean)
+
+  H1 asFound_early_response_deadlocks   as found a response that precedes its request wedges the node
+  H2 wf_step / wf_early                 "the lock is held by whoever is in its critical section" is invariant
+  H3 repaired_never_stuck               repaired: in no well-formed state are all three goroutines blocked
+  H4 repaired_handoff_returns           repaired: the receiving goroutine always hands over and releases the lock
+  H5 repaired_syncer_progress           repaired: the reactor gets the pool lock within three steps, always
+-/
+section Handoff
+open AnnVerif.Handoff
+
+/-- as found: a response that precedes its request wedges the node: the receiving goroutine waits for
+    the requester with the pool lock held, the requester waits for room in the request channel, the
+    reactor - the only one that makes room - waits for the pool lock -/
+theorem asFound_early_response_deadlocks :
+    ∃ st, runActs Handoff.asFound early [.vArrive, .vLock, .sTick] = some st ∧
+      stuck Handoff.asFound st = true ∧ st.lock = .v ∧ st.s = .wantLock ∧ st.r = .sending := by
+  refine ⟨⟨.sending, true, false, false, .inAddBlock, .wantLock, .v⟩, by decide, by decide, rfl, rfl, rfl⟩
+
+theorem wf_early : Handoff.WF early := by simp [Handoff.WF, early]
+
+/-- the same schedule, repaired: nobody is stuck -/
+example : (runActs Handoff.repaired early [.vArrive, .vLock, .sTick, .vHandoff, .sLock]).map
+    (fun st => (st.s, st.blockSet)) = some (.looking, true) := by decide
+
+theorem wf_step (cfg : Handoff.Cfg) (st st' : Handoff.St) (a : Handoff.Act) (h : Handoff.WF st) (hs : step cfg st a = some st') : Handoff.WF st' := by
+  rcases st with ⟨r, f, sg, b, v, s, l⟩
+  rcases cfg with ⟨nb⟩
+  cases a <;> cases v <;> cases s <;> cases l <;> simp [Handoff.WF] at h <;> cases r <;> cases nb <;> cases b <;> cases f <;> cases sg <;>
+    simp [step] at hs <;> (subst hs; simp [Handoff.WF])
+
+theorem repaired_never_stuck (st : Handoff.St) (h : Handoff.WF st) : stuck Handoff.repaired st = false := by
+  rcases st with ⟨r, f, sg, b, v, s, l⟩
+  cases v <;> cases s <;> cases l <;> simp [Handoff.WF] at h <;> cases r <;> cases f <;> cases sg <;> cases b <;> decide
+
+theorem repaired_handoff_returns (st : Handoff.St) (h : st.v = .inAddBlock) :
+    ∃ st', step Handoff.repaired st .vHandoff = some st' ∧ st'.lock = .free ∧ st'.blockSet = true ∧ st'.v = .done := by
+  rcases st with ⟨r, f, sg, b, v, s, l⟩
+  simp only at h; subst h
+  cases b <;> simp [step, Handoff.repaired]
+
+/-- repaired: from every well-formed state the reactor gets the pool lock within three steps -/
+theorem repaired_syncer_progress (st : Handoff.St) (h : Handoff.WF st) :
+    ∃ acts : List Handoff.Act, acts.length ≤ 3 ∧ ∃ st', runActs Handoff.repaired st acts = some st' ∧ st'.s = .looking := by
+  rcases st with ⟨r, f, sg, b, v, s, l⟩
+  cases s
+  · -- draining
+    cases l
+    · exact ⟨[.sTick, .sLock], by simp, by simp [runActs, step]⟩
+    · have hv : v = .inAddBlock := by simpa [Handoff.WF] using h.1
+      subst hv
+      cases b <;> exact ⟨[.sTick, .vHandoff, .sLock], by simp, by simp [runActs, step, Handoff.repaired]⟩
+    · simp [Handoff.WF] at h
+  · cases l
+    · exact ⟨[.sLock], by simp, by simp [runActs, step]⟩
+    · have hv : v = .inAddBlock := by simpa [Handoff.WF] using h.1
+      subst hv
+      cases b <;> exact ⟨[.vHandoff, .sLock], by simp, by simp [runActs, step, Handoff.repaired]⟩
+    · simp [Handoff.WF] at h
+  · exact ⟨[], by simp, by simp [runActs]⟩
+
+end Handoff
 
 /-! ### non-vacuity: a real iteration that applies -/
 
